@@ -56,5 +56,6 @@ def run(rep, tier, seed):
     rep.assume("A1", "A4", "A6", "A8")
     D.run_contracts(rep, "C18", D.relational(), tier)
     D.run_contracts(rep, "C18", D.bounds(), tier, also=("C13",))
+    D.run_static(rep, "C18", ("purity",))      # every per-call contract presupposes that results are functions of the arguments
     t3(rep, tier, seed)
     D.link_falsifier(rep)
